@@ -103,6 +103,16 @@ class RefEngine(c01.CallEngine):
         key = '/'.join(sc + [rng.choice(ginm.spellings(c['sel'], regs)) + '.' + p])
         ops.append(['pbind', key, v] if ginm.textable(v) else ['bind', key, v])
     rng.shuffle(ops)
+    if rng.random() < 0.3:
+      # a constant with a mutable value, delivered through %NAME (alone or inside a container) to the MUTATING probes
+      cname = rng.choice(['lib.KST', 'KST', 'pkg.lib.KST'])
+      cval = rng.choice([['l', [['i', 1], ['i', 2]]], ['d', [[['s', 'k'], ['l', [['i', 1]]]]]], ['l', [['l', []]]], ['t', [['l', [['i', 3]]]]]])
+      ops.insert(0, ['constant', cname, cval])
+      for _ in range(rng.randint(1, 2)):
+        c = rng.choice(regs)
+        p = rng.choice(ginm.sig_names(c['sig']))
+        v = ['macro', 'KST'] if rng.random() < 0.6 else ['l', [['macro', 'KST'], ['i', 0]]]
+        ops.append(['pbind', '/'.join(ginm.gen_scope(rng, 1) + [c['sel'] + '.' + p]), v])
     active = ginm.gen_scope(rng, 2)
     body = []
     for _ in range(rng.randint(1, 3)):
